@@ -1,8 +1,9 @@
 (** C10 — a removed message, and every message of a purged mailbox, is absent from the mailbox after any
-    further history with reopens, as long as no later delivery to that mailbox is issued the same id
-    again ([never_reissued]: ids of messages that are gone may be issued again after a restart). *)
+    further history with reopens, PROVIDED no later delivery to that mailbox is issued the same id again
+    ([never_reissued]). The full statement without that guard is [FileDiskWitness.removed_stay_gone_stmt];
+    it is false (Props/C10/removed_stay_gone_refuted, open finding K-C10-id-reissued-after-restart). *)
 From IV Require Import Base.Bytes Model.FileDisk Proofs.FileDiskCrash Proofs.FileDiskDurable.
-Theorem removed_stay_gone : forall (enc : index -> str) (dec : str -> option index),
+Theorem removed_stay_gone_partial : forall (enc : index -> str) (dec : str -> option index),
   (forall i, dec (enc i) = Some i) ->
   forall (hash : str -> str) (cap : nat) (d : disk) (mb id : str) (its : list item),
   reach enc dec hash cap d ->
@@ -11,4 +12,4 @@ Theorem removed_stay_gone : forall (enc : index -> str) (dec : str -> option ind
   (forall x, never_reissued enc dec hash cap x (hash mb) (exec enc dec hash cap (Purge mb) d) its ->
      ~ In x (view_ids dec (run_items enc dec hash cap (exec enc dec hash cap (Purge mb) d) its) (hash mb))).
 Proof. exact FileDiskDurable.removed_stay_gone. Qed.
-Print Assumptions removed_stay_gone.
+Print Assumptions removed_stay_gone_partial.
